@@ -3,10 +3,14 @@
    Gen/GenAssertSelectors.v (selector -> signature literal) is regenerated from
    /repo/src/halmos/assertions.py, Gen/GenAssumeSelector.v (vm.assume selector, the key of
    the path-appending branch of hevm_cheat_code.handle, the cheatcode address) from
-   /repo/src/halmos/cheatcodes.py, on every run. *)
+   /repo/src/halmos/cheatcodes.py, Gen/GenAssertArms.v (the arms of vm_assert_binary /
+   vm_assert_unary: extractor, offsets, message position, raised class) from assertions.py,
+   Gen/GenExcHierarchy.v (class hierarchy) from exceptions.py and Gen/GenRunExcepts.v (the except
+   clauses of SEVM.run, the delayed re-raise, is_stuck) from sevm.py, on every run. *)
 From Coq Require Import ZArith NArith List Bool String.
 From HV Require Import Base.Word Base.Keccak Spec.AssertSpec Model.AssertModel Proofs.AssertProofs
-  Proofs.AssertCondProofs Gen.GenAssertSelectors Gen.GenAssumeSelector.
+  Proofs.AssertCondProofs Proofs.AssertRunProofs Gen.GenAssertSelectors Gen.GenAssumeSelector
+  Gen.GenAssertArms Gen.GenExcHierarchy Gen.GenRunExcepts.
 Import ListNotations.
 Open Scope list_scope.
 Open Scope Z_scope.
@@ -104,6 +108,58 @@ Theorem C13_global_fail : forall c, is_global_fail_set c = true <-> has_fail c.
 Proof. exact gfs_iff. Qed.
 Print Assumptions C13_global_fail.
 
+(* ------------------------------------------------------------------ sequences of calls *)
+(* A frame (at any call depth: any frame stack without a failure flag) that issues any sequence
+   of cheatcode calls -- vm.assert* returning a condition, vm.assume, or a call whose handler
+   raises a class SEVM.run turns into a stuck path -- and then returns.  For EVERY such sequence,
+   every oracle that is sound when it answers unsat, and every input i, measured against
+   Foundry's run of the same sequence on i alone (stop at the first false assertion: FAIL; at the
+   first false assumption: REJECTED; at an unsupported call: no verdict):
+   no exception escapes, and
+     - a failure is reported for i  iff  i is in the prior path and Foundry fails;
+     - i reaches the normal end only if Foundry passes or fails (never a rejected input), and
+       always when Foundry passes;
+     - i is on a stuck path only if Foundry meets the unsupported call or fails, and always when
+       Foundry meets the unsupported call (so such an input is never counted as passing). *)
+Theorem C13_seq_exact :
+  forall (Input : Type) (check : path Input -> cond Input -> sat_result) (lit_false : cond Input -> bool),
+    (forall p c, check p c = Unsat -> forall i, sat_path Input p i = true -> c i = false) ->
+    (forall c, lit_false c = true -> forall i, c i = false) ->
+    forall (p : list (cheat Input)) (e : exec Input),
+      Forall (fun k => match k with KRaise _ cls => catch_action cls = Some AStuck | _ => True end) p ->
+      (forall c, In c (ex_frames Input e) -> is_global_fail_set c = false) ->
+      exists outs, run_prog Input check lit_false e p = Some outs /\
+        forall i,
+          let v := foundry_run Input i (map (pstep_of Input) p) in
+          let pr := sat_path Input (ex_path Input e) i in
+          let failure := existsb (fun o => reported_failure Input o i) outs in
+          let passes := existsb (fun o => continues_with Input o i) outs in
+          let stuck := existsb (fun o => reported_stuck Input o i) outs in
+          (failure = true <-> pr = true /\ v = VFail)
+          /\ (passes = true -> pr = true /\ (v = VPass \/ v = VFail))
+          /\ (stuck = true -> pr = true /\ (v = VUnsupported \/ v = VFail))
+          /\ (pr = true -> v = VPass -> passes = true)
+          /\ (pr = true -> v = VUnsupported -> stuck = true).
+Proof. exact seq_exact. Qed.
+Print Assumptions C13_seq_exact.
+
+(* ... which is false as soon as one handler raises a class that no clause of SEVM.run catches:
+   a non-UTF-8 message makes the handler raise UnicodeDecodeError (C13_cond_total_refuted), no
+   clause catches it, and the failure of an EARLIER assertion is lost with it (known finding
+   C13-unicode-message) *)
+Theorem C13_seq_escape_refuted :
+  hres_raises RUnicodeError = Some "UnicodeDecodeError"%string /\
+  catch_action "UnicodeDecodeError" = None /\
+  exists (check : path bool -> cond bool -> sat_result) (lit_false : cond bool -> bool)
+         (e : exec bool) (p : list (cheat bool)) (i : bool),
+    (forall q c, check q c = Unsat -> forall j, sat_path bool q j = true -> c j = false) /\
+    (forall c, lit_false c = true -> forall j, c j = false) /\
+    sat_path bool (ex_path bool e) i = true /\
+    foundry_run bool i (map (pstep_of bool) p) = VFail /\
+    run_prog bool check lit_false e p = None.
+Proof. exact seq_escape_refuted. Qed.
+Print Assumptions C13_seq_escape_refuted.
+
 (* ------------------------------------------------------------------ the condition *)
 (* For every forge-std overload d, every calldata cd that is a valid ABI encoding for d (strict
    decoding, any layout of the dynamic parts), the handler halmos derives from d's signature
@@ -111,7 +167,8 @@ Print Assumptions C13_global_fail.
    (unsigned order for uint256, two's-complement order for int256, value equality for word
    types, length-and-content equality for bytes/string, length and element-wise equality for
    T[]) -- together with the decoded message; EXCEPT that a message which is not valid UTF-8
-   makes it raise UnicodeDecodeError instead (see C13_cond_total_refuted). *)
+   makes it raise UnicodeDecodeError instead (see C13_cond_total_refuted).  (bytes[] / string[]
+   have no decoding in the specification: spec_assert is None, see C13_bytes_array_path_stuck.) *)
 Theorem C13_cond :
   forall d cd r,
     In d all_descrs -> bytes_ok cd -> spec_assert d cd = Some r ->
@@ -133,13 +190,53 @@ Theorem C13_cond_total_refuted :
 Proof. exact msg_refuted. Qed.
 Print Assumptions C13_cond_total_refuted.
 
-(* bytes[] / string[] overloads: bound, but the handler raises NotImplementedError on every
-   calldata (stated, not a relation) *)
-Theorem C13_bytes_array_not_implemented :
+(* bytes[] / string[] overloads: bound; element-wise comparison is not implemented, and the
+   handler says so in the one way that loses nothing: on every calldata it raises a class that
+   SEVM.run catches with `ex.halt(data=None, error=err); finalize(ex)` -- the current path ends
+   stuck (no pass is claimed for its inputs, see C13_seq_exact) and every other path of the test
+   is still explored *)
+Theorem C13_bytes_array_path_stuck :
   forall d cd, In d all_descrs -> is_dyn (d_ty d) = true -> d_arr d = true ->
-    exists h, mk_assert_handler (render d) = Some h /\ run_handler h cd = RNotImplemented.
-Proof. exact bytes_array_not_implemented. Qed.
-Print Assumptions C13_bytes_array_not_implemented.
+    exists h cls, mk_assert_handler (render d) = Some h /\ run_handler h cd = RRaise cls /\
+                  catch_action cls = Some AStuck.
+Proof. exact bytes_array_path_stuck. Qed.
+Print Assumptions C13_bytes_array_path_stuck.
+
+(* on ANY calldata (valid encoding or not) a handler of the table either returns a condition or
+   raises one of two classes: the one of the unsupported overloads (a stuck path, above) or
+   UnicodeDecodeError (the known finding); in particular mk_cond's ValueError -- which no clause
+   of SEVM.run would catch -- is unreachable from the table *)
+Theorem C13_handler_raises_only :
+  forall d cd h, In d all_descrs -> mk_assert_handler (render d) = Some h ->
+    hres_raises (run_handler h cd) = None
+    \/ hres_raises (run_handler h cd) = Some unsupported_class
+    \/ hres_raises (run_handler h cd) = Some "UnicodeDecodeError"%string.
+Proof. exact handler_raises_only. Qed.
+Print Assumptions C13_handler_raises_only.
+
+(* the handlers in the source are built from the extractors, offsets, message positions and
+   raised class the model uses *)
+Theorem C13_source_arms :
+  binary_arms =
+    [ ((false, false), GExtract "extract_bytes" [4; 32] [36; 32] 2);
+      ((false, true), GExtract "extract_bytes_argument" [0] [1] 2);
+      ((true, false), GExtract "extract_bytes32_array_argument" [0] [1] 2);
+      ((true, true), GRaise unsupported_class) ]
+  /\ bytes_types = ["bytes"; "string"]%string /\ unary_word_offset = 4 /\ unary_msg_idx = 1.
+Proof. exact arms_as_modelled. Qed.
+Print Assumptions C13_source_arms.
+
+(* SEVM.run's except clauses, as the branching model assumes them: the delayed FailCheatcode of
+   the assert branch is re-raised and yields the state without finalize(); vm.assume(false)
+   (InfeasiblePath) drops the state; a context halted by the HalmosException clause is what
+   is_stuck recognises; every clause has a shape the model understands *)
+Theorem C13_run_excepts :
+  is_subclass "FailCheatcode" delayed_raise_class = true /\ catch_action "FailCheatcode" = Some AFailYield
+  /\ catch_action "InfeasiblePath" = Some ADrop
+  /\ catch_action stuck_error_class = Some AStuck
+  /\ forallb (fun cl => match action_of cl with AOther => false | _ => true end) run_excepts = true.
+Proof. exact run_excepts_all. Qed.
+Print Assumptions C13_run_excepts.
 
 (* vm.assume(b): the condition appended to the path is the decoded bool *)
 Theorem C13_assume_cond : forall cd b, spec_assume cd = Some b -> assume_cond cd = b.
@@ -178,3 +275,19 @@ Example C13_fail_exact_nonvacuous :
   existsb (fun o => continues_with bool o true) (assert_step bool check e c) = true /\
   List.length (assert_step bool check e c) = 2%nat.
 Proof. cbv zeta. split; [discriminate|]. vm_compute. auto. Qed.
+
+(* sequences: assume(x), assertTrue(y), assertEq(bytes[],bytes[]) two frames deep, oracle always
+   unknown: the failing branch, and the stuck path yielded from the caller's frame *)
+Example C13_seq_nonvacuous :
+  let check : path (bool * bool) -> cond (bool * bool) -> sat_result := fun _ _ => Unknown in
+  let e := mkExec (bool * bool) [] [Ctx ENone []; Ctx ENone []] in
+  let p := [KAssume (bool * bool) fst; KAssert (bool * bool) snd; KRaise (bool * bool) unsupported_class] in
+  exists outs, run_prog (bool * bool) check (fun _ => false) e p = Some outs /\
+    List.length outs = 2%nat /\
+    map (fun i => existsb (fun o => reported_failure (bool * bool) o i) outs) [(true, false); (true, true); (false, false)]
+      = [true; false; false] /\
+    map (fun i => existsb (fun o => reported_stuck (bool * bool) o i) outs) [(true, false); (true, true); (false, false)]
+      = [true; true; false] /\
+    map (fun i => foundry_run (bool * bool) i (map (pstep_of (bool * bool)) p)) [(true, false); (true, true); (false, false)]
+      = [VFail; VUnsupported; VRejected].
+Proof. eexists. vm_compute. repeat split; reflexivity. Qed.
